@@ -143,7 +143,7 @@ func encodeVariant(t *rapid.T, m protoreflect.Message, o varOpts, st *varStats, 
 				}
 				shape := 0
 				if o.mapShape {
-					shape = rapid.SampledFrom([]int{0, 0, 0, 1, 1, 2, 3, 4, 5, 6}).Draw(t, "mapshape")
+					shape = rapid.SampledFrom([]int{0, 0, 0, 1, 1, 2, 3, 4, 5, 6, 7}).Draw(t, "mapshape")
 				}
 				var entry []byte
 				switch shape {
@@ -161,6 +161,10 @@ func encodeVariant(t *rapid.T, m protoreflect.Message, o varOpts, st *varStats, 
 				case 5: // an unknown field inside the entry (a conforming reader ignores it)
 					entry = append(append(entry, keyPiece...), refwire.AppendVarint(refwire.AppendKey(nil, 3, 0), 7)...)
 					entry = append(entry, valPiece...)
+					st.mapExtra++
+				case 7: // an unknown field FIRST in the entry, before key and value
+					entry = append(entry, refwire.AppendLen(refwire.AppendKey(nil, 15, 2), []byte("zz"))...)
+					entry = append(append(entry, keyPiece...), valPiece...)
 					st.mapExtra++
 				case 6: // the key occurs twice inside the entry: the last one wins
 					entry = append(append(entry, fieldOcc(1, kfd.Kind(), genScalar(t, kfd))...), keyPiece...)
